@@ -142,7 +142,47 @@ def check_digit(r, pattern, perm):
     r.out.add((pattern, tuple(images)))
 
 
+MIXED = [[[0, 1, 2, -1], [0, 1, -1, -1], [-1, 1, 2, -1], [0, 1, 2, 3]], [[0, 1, 2, 3], [0, -1, 2, -1], [-1, 1, -1, -1], [0, 1, 2, -1]],
+         [[-1, 1, 2, -1], [0, 1, -1, 3], [0, 1, 2, 3], [-1, -1, 2, -1]], [[0, 1, -1, -1], [0, 1, 2, 3], [0, -1, -1, 3], [-1, 1, 2, 3]]]
+
+
+def check_walks(r, gi, perm):
+    """Multi-step: a table whose rows are all the same permutation, on graphs with mixed out-degrees -
+    equal rows meet different live patterns within one walk."""
+    import dsw
+    from .. import coder
+    G = MIXED[gi]
+    acc = U.A(G)
+    T = [list(perm)] * 4
+    tab = np.array(T, dtype=int)
+    case = {'graph': gi, 'row': list(perm)}
+    for start in range(4):
+        R = O.reach(G, start)
+        fastok = coder.no_deg3(G, R)
+        for bits in U.all_bits(5, 1):
+            for fast in ((False, True) if fastok else (False,)):
+                st, s, _ = brun(dsw.encode, np.array(bits), acc, start, is_faster=fast, shuffles=tab)
+                r.trans += 1
+                r.evals += 1
+                exp = O.ref_encode(bits, G, start, T, fast)
+                if st != 'ok' or s != exp or not O.is_walk(G, start, s):
+                    r.v('C18|digit-map|multi-step|%s|strand-not-the-walk-the-table-induces' % ('fast' if fast else 'normal'), 'walks',
+                        dict(case, start=start, bits=''.join(map(str, bits))), exp, s if st == 'ok' else repr(s))
+                    continue
+                st, back, _ = brun(dsw.decode, s, len(bits), acc, start, is_faster=fast, shuffles=tab)
+                r.trans += 1
+                if st != 'ok' or not U.same_ints(back, bits):
+                    r.v('C18|digit-map|multi-step|%s|decode-does-not-invert' % ('fast' if fast else 'normal'), 'walks',
+                        dict(case, start=start, bits=''.join(map(str, bits))), bits, back if st == 'ok' else repr(back))
+    r.states += 1
+    r.nontriv += 1
+    r.ctr['multi_step_tables'] += 1
+
+
 def check_case(r, kind, case):
+    if kind == 'walks':
+        check_walks(r, case['graph'], tuple(case['row']))
+        return
     if kind == 'seed':
         check_seed(r, case['k'], case['seed'])
     else:
@@ -154,6 +194,13 @@ def _w_seed(chunk):
     for k, seed in chunk:
         check_seed(r, k, seed)
     r.sample({'k': chunk[-1][0], 'seed': chunk[-1][1]}, 1)
+    return r
+
+
+def _w_walks(chunk):
+    r = core.Res()
+    for gi, perm in chunk:
+        check_walks(r, gi, perm)
     return r
 
 
@@ -175,7 +222,8 @@ def run(ctx):
     ctx.pmap(_w_seed, core.chunks_of(cases, 8))
     dig = [(p, perm) for p in range(1, 16) for perm in U.PERMS]
     ctx.pmap(_w_digit, core.chunks_of(dig, 12))
-    ctx.bounds = {'k': [1, 6], 'seeds': '0..%d + 2021, 2^31-1, 2^32-1 (k>=5: first %d)' % (len(seeds) - 4, 16 if ctx.quick else 128),
+    ctx.pmap(_w_walks, core.chunks_of([(gi, perm) for gi in range(len(MIXED)) for perm in U.PERMS], 6))
+    ctx.bounds = {'multi_step': '4 mixed-degree order-1 graphs x 24 constant-row tables x 4 starts x all messages of 1..5 bits', 'k': [1, 6], 'seeds': '0..%d + 2021, 2^31-1, 2^32-1 (k>=5: first %d)' % (len(seeds) - 4, 16 if ctx.quick else 128),
                   'digit_map': 'all 15 live patterns x 24 rows x every digit, both modes'}
     ctx.rule = ('one case = (k, seed): shape, rows are permutations, same seed same table also when interleaved with other '
                 'seeds, fresh array, no output, module state unchanged; or one (live pattern, table row): every digit on the real '
